@@ -578,6 +578,26 @@ func main() {
 			cases = append(cases, Case{Config: 0, Letters: ls})
 		}
 	}
+	// response lists of EXACTLY a given byte length (present type-2 entry = 259 bytes, absent = 1 byte):
+	// both sides of every varint class boundary of the list's length prefix
+	for _, target := range mc.Pick(r, []int{63, 64, 65, 16383, 16384, 16385}, []int{62, 63, 64, 65, 16382, 16383, 16384, 16385, 65535, 65536, 65537}) {
+		k := target / 259
+		if k > 2 && target%259 < 3 {
+			k-- // keep some absent entries in every batch
+		}
+		var ls []int
+		for i := 0; i < k; i++ {
+			ls = append(ls, t2A)
+		}
+		for i := 0; i < target-259*k; i++ {
+			ls = append(ls, t2Unknown)
+		}
+		// interleave: absent entries first, in the middle and last
+		if len(ls) > 4 && k > 0 {
+			ls[0], ls[len(ls)-1] = ls[len(ls)-1], ls[0]
+		}
+		cases = append(cases, Case{Config: 0, Letters: ls})
+	}
 	r.SetRule(fmt.Sprintf("every sequence of length 1..%d over the 9-letter request alphabet {type1,type2} x {key A, key B, unknown truncated key id, malformed blinded element} plus a type-1 key C whose truncated id equals that of the type-2 key A x every one of %d hand-picked issuer configurations (both types, one type, none, two issuers per type in both orders); every ordered arrangement of every subset of five issuers x a probe batch with one request per key; issuer objects whose key was rotated between two batches; unsupported type = configuration lacking that type. Cases are distinct tuples; non-trivial = batch with at least one request", n, nBase))
 	r.Assume("two type-2 issuers D, E sharing a truncated key id: an entry is present iff one of them can sign the request (D cannot when the blinded message is not below its modulus); it must equal the stand-alone evaluation by the first configured issuer that can; its token is judged only when that issuer holds the request's own key",
 		"reference model: entry present iff a configured issuer of the request's type and truncated key id exists and the blinded element is well-formed",
